@@ -5,7 +5,7 @@ HERE="$(cd "$(dirname "$0")/.." && pwd)"
 cd "$HERE"
 SEEDS="$@"
 [ -z "$SEEDS" ] && SEEDS=$(ls seeded)
-CLAIMED=$(.venv/bin/python -c "import json; print(' '.join(c['property_id'] for c in json.load(open('MANIFEST.json'))['checks']))")
+CLAIMED=$(/venv/bin/python -c "import json; print(' '.join(c['property_id'] for c in json.load(open('MANIFEST.json'))['checks']))")
 for s in $SEEDS; do
   P=$(echo $s | cut -d- -f1)
   LIST="${CHECKS:-$CLAIMED}"
